@@ -108,14 +108,14 @@ def plan(tier: str, seed: int) -> list[dict]:
             cases.append({"k": "rand", "inp": ii, "j": j})
     crafted = ["hv-self", "hv-pair", "hv-chain", "shot-self", "shot-pair", "shot-mid-self", "shot-base-mid", "vmdk-self-parent", "vhdx-self-parent",
                "qcow2-bomb", "vmdk-bomb", "vmtar-gzbomb", "vmx-nested", "vmx-giant", "keystore-deep", "qcow2-snap-zero-table", "vmdk-desc-giant",
-               "big-unit", "big-unit", "vhdx-diff-bitmap", "layered-corrupt", "layered-corrupt", "layered-corrupt", "layered-corrupt", "layered-corrupt", "layered-corrupt"]
+               "big-unit", "big-unit", "vhdx-diff-bitmap", "vmtar-pax", "vmtar-pax", "vmtar-pax", "layered-corrupt", "layered-corrupt", "layered-corrupt", "layered-corrupt", "layered-corrupt", "layered-corrupt"]
     crafted = [(c, j) for j, c in enumerate(crafted)]
     # every (text grammar, repeated token) combination, in both tiers
     for idx in range(len(TOKENS) * len(TARGETS)):
         cases.append({"k": "crafted", "c": "text-repeat", "r": idx, "weight": 2})
     for c, j in crafted:
         for r in range(4 if tier == "quick" else 40):
-            cases.append({"k": "crafted", "c": c, "r": r + 1000 * j if c in ("big-unit", "text-repeat", "layered-corrupt") else r, "weight": 4})
+            cases.append({"k": "crafted", "c": c, "r": r + 1000 * j if c in ("big-unit", "text-repeat", "layered-corrupt", "vmtar-pax") else r, "weight": 4})
     return cases
 
 
@@ -467,6 +467,45 @@ def _crafted(case, ctx, res):
         ctx.mem.begin()
         o = call(f)
         res["sets"]["layered_kinds"] = [kind]
+    elif c == "vmtar-pax":
+        # pax extended headers (size / path / GNU.sparse records, some of them nonsense) in front of visor members whose data
+        # offsets point backwards, at themselves or far away: iteration over the archive must end
+        from dissect.hypervisor.util import vmtar
+        from vf.writers import vmtar as wtar
+
+        blocks = b""
+        blocks += wtar.header(b"first", 0, b"0", offset_data=4096)
+        for j in range(rng.randrange(1, 6)):
+            recs = rng.sample([("size", rng.choice(["0", "512", "1", "99999999999", "-1", "x"])), ("path", "p" * rng.choice([1, 300])), ("GNU.sparse.size", "4096"),
+                               ("GNU.sparse.map", "0,512"), ("GNU.sparse.major", "1"), ("GNU.sparse.minor", "0"), ("mtime", "1e999"), ("uid", "abc")], rng.randrange(1, 4))
+            loop_shaped = rng.random() < 0.6
+            if loop_shaped:
+                # a well-formed size record: the reader recalculates where the next header is from the member that follows
+                recs = [("size", rng.choice(["0", "0", "512", "1024"]))] + [r_ for r_ in recs if r_[0] not in ("size", "GNU.sparse.size", "GNU.sparse.map", "GNU.sparse.major")][:1]
+            rec = wtar.pax_records(recs)
+            here = len(blocks)
+            blocks += wtar.header(b"PaxHeader", len(rec), rng.choice([b"x", b"x", b"g", b"X"]), visor=rng.random() < 0.3)
+            blocks += rec.ljust(-(-len(rec) // 512) * 512, b"\0")
+            target = rng.choice([0, 512, here, here + 512, len(blocks), len(blocks) + 512, 4096, 1 << 31, 0xFFFFFFFF])
+            if loop_shaped:
+                target = rng.choice([512 * rng.randrange(0, here // 512 + 1), here, here + 512, 512])
+            blocks += wtar.header(f"victim{j}".encode(), rng.choice([0, 1, 512, 4096]), b"0", offset_data=target)
+        raw = blocks + b"\0" * 8192
+        in_len = len(raw)
+
+        def f():
+            t = vmtar.open(fileobj=io.BytesIO(raw), mode="r:")
+            n_ = 0
+            for m_ in t:
+                n_ += 1
+                if n_ > 100000:
+                    raise AssertionError("more than 100000 members from a few KiB of archive")
+            return n_
+
+        ctx.mem.begin()
+        o = call(f)
+        if not o.ok and "more than 100000 members" in o.brief():
+            res["viol"].append({"what": "iteration over the archive's members does not end", "mech": "non-termination", "detail": {"case": label, "input_len": in_len}})
     elif c == "vmtar-gzbomb":
         from dissect.hypervisor.util import vmtar
 
